@@ -567,20 +567,38 @@ def r042(ctx, fi, fu):
                  "in %s the state loop has paths emitting %s define/declare commands for a state (must be exactly 1%s)" % (tag, bad, ", 0 allowed only for constant states" if tag == "unroll" else ""),
                  sample={"function": tag, "paths": sorted((c, sorted(t)) for c, t in paths)})
         # the symbol being defined: for unroll it is named with next_step; for init_at with step (or un-stepped for const states)
-    # init_at: define only in the (0, Some) arm
-    for n in walk(fi["body"]):
-        if n.get("k") == "match" and peel(n["scrut"]).get("k") == "tuple":
-            es = peel(n["scrut"])["es"]
-            fp = field_path(es[1]) if len(es) == 2 else None
-            if fp and fp[2] == ["init"]:
-                for arm in n["arms"]:
-                    defs_ = [x for x in walk(arm["body"]) if x.get("k") == "mcall" and x["name"] == "define_const"]
-                    pat = arm["pat"]
-                    is_zero_some = pat.get("k") == "ptuple" and pat["subs"][0].get("k") == "plit" and pat["subs"][0].get("v") == 0 and pat["subs"][1].get("k") == "pvariant" and pat["subs"][1]["path"].endswith("Option::Some")
-                    if defs_:
-                        ctx.inst("R04.2", "init_at:define-only-at-step0-with-init", is_zero_some, arm["sp"],
-                                 "init_at defines a state from its init expression in arm `%s`, i.e. not only for (step 0, Some(init)): entry at a later step must leave states free" % show_pat(pat),
-                                 sample=show_pat(pat))
+    # init_at: a state is defined from its init expression only when the encoding starts at step 0 (entry at a later step leaves states free)
+    fix = Index(fi["body"])
+    step_id = {name: i_ for p_ in fi["params"] for name, i_ in pat_bindings(p_)}.get("step")
+
+    def says_step0(c_, pol, depth=0):
+        if not pol or depth > 3:
+            return False
+        if c_.get("k") in ("armpat", "letexpr"):
+            scr = resolve(c_["scrut"] if c_["k"] == "armpat" else c_["init"])
+            alts = pat_alts(c_["pat"])
+            if is_local(scr, step_id) and alts and all(a_.get("k") == "plit" and a_.get("v") == 0 for a_ in alts):
+                return True
+            # `let init = if step == 0 { state.init } else { None }; if let Some(v) = init`: the alternative that can be Some is selected by step == 0
+            if peel(scr).get("k") == "local" and all(a_.get("k") == "pvariant" and a_["path"].endswith("Option::Some") for a_ in alts):
+                some_alts = [(cs, x) for cs, x in norm_.value_alternatives(scr) if not (peel(x).get("k") == "def" and (peel(x).get("path") or "").endswith("Option::None"))]
+                return bool(some_alts) and all(any(says_step0(resolve(c2) if c2.get("k") not in ("armpat", "letexpr") else c2, p2, depth + 1) for c2, p2 in cs) for cs, _ in some_alts)
+            return False
+        c_ = resolve(c_)
+        if c_.get("k") == "binary" and c_["op"] == "==":
+            for a_, b_ in ((c_["l"], c_["r"]), (c_["r"], c_["l"])):
+                if is_local(a_, step_id) and peel(b_).get("k") == "lit" and peel(b_).get("v") == 0:
+                    return True
+        return False
+    n_def = 0
+    for x in fix.nodes:
+        if x.get("k") == "mcall" and x["name"] == "define_const" and "SolverContext" in (x.get("path") or ""):
+            n_def += 1
+            conds = norm_.path_conditions(fix, x, arms=True)
+            ok0 = step_id is not None and any(says_step0(c_, pol) for c_, pol in conds)
+            ctx.inst("R04.2", "init_at:define-only-at-step0-with-init" + ("" if n_def == 1 else "#%d" % n_def), ok0, x["sp"],
+                     "init_at defines a state from its init expression on a path that is not restricted to step 0: entry at a later step must leave states free",
+                     sample=[show(c_)[:60] if c_.get("k") not in ("armpat",) else "match %s: %s" % (show(c_["scrut"])[:30], show_pat(c_["pat"])[:30]) for c_, _ in conds][:6])
     # is_const
     f = ctx.fn("patronus", IS_CONST)
     ok, why = is_const_shape(peel_block(f["body"]))
